@@ -69,6 +69,7 @@ type loopInfo struct {
 	measure  Term // value of decreases expression at header
 	hasMeas  bool
 	stHeader *State
+	dropped  map[int]bool // invariants that name a variable the function no longer has
 }
 
 type Frame struct {
@@ -837,6 +838,23 @@ func (f *Frame) enterLoop(li *loopInfo, st *State) *State {
 		ce := f.loopEnv(li, over, st)
 		t, err := ce.evalBool(inv.E)
 		if err != nil {
+			if strings.Contains(err.Error(), "unknown identifier") {
+				// an invariant is a proof aid: one that names a variable the function no longer
+				// has is dropped (noted in the evidence); what it was needed for is then either
+				// still provable or reported where it is claimed
+				if li.dropped == nil {
+					li.dropped = map[int]bool{}
+				}
+				if !li.dropped[i] {
+					li.dropped[i] = true
+					if f.u.droppedInv == nil {
+						f.u.droppedInv = map[[2]int]bool{}
+					}
+					f.u.droppedInv[[2]int{li.k, i}] = true
+					f.u.notes = append(f.u.notes, fmt.Sprintf("loop %d invariant %q dropped: %v", li.k, inv.Text, err))
+				}
+				continue
+			}
 			f.errorf("loop %d invariant %q: %v", li.k, inv.Text, err)
 			continue
 		}
@@ -961,6 +979,9 @@ func (f *Frame) backEdge(li *loopInfo, from *ssa.BasicBlock, cond Term, st *Stat
 	bst := st.clone()
 	bst.reach = cond
 	for i, inv := range li.spec.Invariants {
+		if li.dropped[i] {
+			continue
+		}
 		ce := f.loopEnv(li, over, bst)
 		t, err := ce.evalBool(inv.E)
 		if err != nil {
